@@ -17,6 +17,15 @@ const verifrtSuffix = "/internal/verifrt."
 func (m *Machine) argStr(v Value, what string) string {
 	s, ok := m.concreteString(v)
 	if !ok {
+		if t, isT := v.(*Term); isT && t.cases != nil {
+			// the value may be determined under the current path condition
+			for _, c := range t.cases {
+				if m.gNow != nil && And(m.gNow, Not(c.c)).IsFalse() && int(c.k) < len(m.strs) {
+					return m.strs[c.k]
+				}
+			}
+			panic(notEncoded("%s: name argument has %d possible values (make the index concrete)", what, len(t.cases)))
+		}
 		panic(notEncoded("%s: string argument must be a literal", what))
 	}
 	return s
